@@ -34,7 +34,7 @@ ASSUMPTIONS = ["LC_ALL=C.UTF-8 (no thousands separators) and a console 400 colum
                "a totals row is required only with two or more languages (with one language that row is the total)"]
 BOUNDS = {"quick": dict(n=32, pairs=10000, findings=3000, commands=4), "thorough": dict(n=64, pairs=80000, findings=20000, commands=40)}
 MINIMUM = {"quick": {"monitor.overviews_parsed": 15000, "monitor.findings_parsed": 10000, "monitor.delta_cells_checked": 100000,
-                     "monitor.command_runs": 500},
+                     "monitor.command_runs": 500, "monitor.cli_runs": 40},
            "thorough": {"monitor.overviews_parsed": 250000, "monitor.findings_parsed": 70000, "monitor.delta_cells_checked": 1000000,
                         "monitor.command_runs": 2000}}
 LANGS = ["C", "C++", "C#", "Java", "JavaScript", "TypeScript", "Python"]
@@ -303,7 +303,7 @@ def findings_spec(rng, n_findings):
 
 
 # ------------------------------------------------------------------------------------------------
-def command_case(ctx, rng, cur_spec, prev_spec):
+def command_case(ctx, rng, cur_spec, prev_spec, cli=False):
     """report_command / findings_command on reports written to disk by the real writer"""
     import typer
     from codelimit.commands.findings import findings_command
@@ -352,6 +352,26 @@ def command_case(ctx, rng, cur_spec, prev_spec):
                         ctx.violation("command_exception", case, {"format": fmt.value, "error": f"{type(e).__name__}: {e}", "tb": short_tb(5)})
                         continue
                     check_findings(ctx, case, fmt.value, buf.getvalue(), cur, full, False)
+            # the same two commands through the real CLI (positional arguments only, DESIGN section 2)
+            if cli:
+                import subprocess
+                from vf import REPO
+                env = dict(os.environ, PYTHONPATH=REPO, COLUMNS="400", LC_ALL="C.UTF-8")
+                for args in (["report", root], ["findings", root]):
+                    p = subprocess.run(["/venv/bin/python", "-m", "codelimit"] + args, cwd=root, env=env, stdout=subprocess.PIPE,
+                                       stderr=subprocess.PIPE, timeout=300)
+                    ctx.eval()
+                    ctx.count("monitor.cli_runs")
+                    out = p.stdout.decode("utf-8", "replace")
+                    if p.returncode != 0:
+                        ctx.violation("cli_failed", dict(case, cli=args[0]), {"rc": p.returncode, "stderr": p.stderr.decode("utf-8", "replace")[-300:]})
+                    elif args[0] == "report":
+                        check_overview(ctx, dict(case, cli="report"), "text(cli report)", out.split("Summary")[0], totals_of(cur), None)
+                    else:
+                        # the option parser of this image hands full='False' (a truthy string) to the command, so the CLI may run in
+                        # either mode; the listing is judged in the mode it was evidently produced in
+                        n_rows = sum(1 for ln in out.split("\n") if FLINE.match(ln.strip()))
+                        check_findings(ctx, dict(case, cli="findings"), "text", out, cur, n_rows > 10, False)
         finally:
             if old_cols is None:
                 os.environ.pop("COLUMNS", None)
@@ -388,7 +408,7 @@ def run(shard, ctx):
     for i in range(shard["commands"]):
         cur_spec = findings_spec(rng, rng.choice([0, 3, 10, 11, 17]))
         prev_spec = derive_previous(rng, cur_spec) if rng.random() < 0.7 else None
-        command_case(ctx, rng, cur_spec, prev_spec)
+        command_case(ctx, rng, cur_spec, prev_spec, cli=(i == 0))
 
 
 def replay(case, ctx):
